@@ -62,6 +62,10 @@ type ReplayCfg struct {
 	Test string `json:"test"`
 	Tags string `json:"tags"`
 	Race bool   `json:"race"` // run under the race detector; a DATA RACE report confirms
+	Extra []struct {
+		Pkg  string `json:"pkg"`
+		File string `json:"file"`
+	} `json:"extra"` // further files overlaid into other packages (helpers the driver needs)
 }
 
 type UnitCfg struct {
@@ -1037,6 +1041,9 @@ func runReplay(hdir string, rc *ReplayCfg, cexPath string) (string, string) {
 	defer os.RemoveAll(tmp)
 	pkgDir := filepath.Join(repoDir, rc.Pkg)
 	ov := map[string]map[string]string{"Replace": {filepath.Join(pkgDir, "zz_verif_replay_test.go"): filepath.Join(hdir, rc.File)}}
+	for _, x := range rc.Extra {
+		ov["Replace"][filepath.Join(repoDir, x.Pkg, "zz_verif_"+filepath.Base(x.File))] = filepath.Join(hdir, x.File)
+	}
 	ovPath := filepath.Join(tmp, "overlay.json")
 	writeJSON(ovPath, ov)
 	args := []string{"test", "-vet=off", "-count=1", "-overlay", ovPath, "-run", "^" + rc.Test + "$", "-v"}
@@ -1057,6 +1064,8 @@ func runReplay(hdir string, rc *ReplayCfg, cexPath string) (string, string) {
 		return "confirmed", s
 	case rc.Race && strings.Contains(s, "VSREPLAY-RACE-RUN-COMPLETE"):
 		return "not-reproduced", s
+	case strings.Contains(s, "VSREPLAY-NO-SCENARIO"):
+		return "no-driver", s
 	case strings.Contains(s, "VSREPLAY-CONFIRMED"):
 		return "confirmed", s
 	case strings.Contains(s, "VSREPLAY-NOT-REPRODUCED"):
